@@ -8,7 +8,7 @@ def M(cat,sec,tech,text,note): return dict(cat=cat,ref="DESIGN.md §4 "+sec,tech
 HELD=" Held = no refuting execution among those observed (counts in the evidence file); it is not a proof for all inputs."
 META={
  "C01":M("exploration","C01","guard-page / cap==len input buffers (home-made memory sanitizer), panic recovery, child-process crash isolation with traced re-run, stall + hang watchdog, -race/checkptr build in thorough",
-   "Every registered detector, the un-sliced tree walk and Detect are driven with every seed at every prefix length, injected 32-bit field values, mutants and targeted arithmetic families (zip/CRX/OLE/Matroska/escape tails/small boxes/nesting bombs), each input ending exactly at an inaccessible page with cap == len, under 10 limits incl. 0 and 2^32-1; every string / byte literal of the tree under test (parsed from the source at run time) as input, splice fragment and tail; cut / valueless HTML and XML declarations; readers and files on a subset. A panic, a fault on the guard page, a nil result or a non-returning call is a violation."+HELD,
+   "Every registered detector, the un-sliced tree walk and Detect are driven with every seed at every prefix length, injected 32-bit field values, mutants and targeted arithmetic families (zip/CRX/OLE incl. every 16-bit header field at 0-70 and the extremes/Matroska/escape tails/small boxes/nesting bombs), each input ending exactly at an inaccessible page with cap == len, under 10 limits incl. 0 and 2^32-1; every string / byte literal of the tree under test (parsed from the source at run time) as input, splice fragment and tail; cut / valueless HTML and XML declarations; readers and files on a subset. A panic, a fault on the guard page, a nil result or a non-returning call is a violation."+HELD,
    "Trusted: Go runtime bounds checks, mmap/mprotect semantics, the watchdog thresholds (120 s stall, 180 s single case). linux/amd64 only."),
  "C02":M("exploration","C02","result-invariant monitor (written from the statement) over every (value, error) returned under hostile charset labels, all entry points, failing readers / seekers / files, strace-injected kernel faults (close/read EIO), extended trees",
    "Every single byte 0x09-0xFF and runs over a hostile alphabet are spliced as charset labels into 9 declaration syntaxes; readers fail at every offset class with 19 classes of error values (incl. io.ErrUnexpectedEOF and wrapped io.EOF from the source itself), seekers fail, files are missing or directories; plus every seed prefix, mutants and generated documents. Each returned value is checked: String() parses, type registered, only charset on the three text types, finite bare registered ancestors ending at application/octet-stream, error => exactly application/octet-stream."+HELD,
@@ -53,10 +53,10 @@ META={
    "Every seed, seeds with tails, mutants and structured inputs whose deciding bytes lie at offsets given by length fields (ID3, CRX, tar members, OLE, Matroska, zip, fixed-offset signatures) are detected at every limit; seeds' magic numbers followed by every literal of the signature packages (read from the tree under test); DetectReader with limits next to 2^32; once binary, every larger limit must be binary."+HELD,
    "Trusted: class definition (text = text/plain in the chain); limits between sparse sample points are not executed."),
  "C18":M("exploration","C18","archive/tar as conforming writer + exhaustive single-byte corruption of the first block per archive",
-   "Random headers over USTAR/PAX/GNU (hostile names, base-256 ids and sizes, all type flags) written by archive/tar must be reported as application/x-tar (the reported type itself) unless a higher-priority root format's pinned signature is carried by the leading bytes; member names and member data carry other formats' signatures; then all 504 x 255 single-byte corruptions outside the checksum field must not be tar."+HELD+" One known finding (gpkg exclusion) is replayed and listed.",
+   "Random headers over USTAR/PAX/GNU (hostile names, base-256 ids and sizes, all type flags, header-only members that record a size and are followed by a member with data) written by archive/tar must be reported as application/x-tar (the reported type itself) unless a higher-priority root format's pinned signature is carried by the leading bytes; member names and member data carry other formats' signatures; then all 504 x 255 single-byte corruptions outside the checksum field must not be tar."+HELD+" One known finding (gpkg exclusion) is replayed and listed.",
    "Trusted: archive/tar; names ending in /gpkg-1 are excluded from generation (KNOWN_FINDINGS)."),
- "C19":M("exploration","C19","archive/zip as writer AND reader: verdict predicted from the read-back entry list, 6 writer layouts per entry",
-   "Generated entry lists (OOXML bookkeeping, markers at positions 2-10, near misses incl. every marker in other letter cases, directory entries, JAR/APK/ODF/EPUB, unrelated) written with 6 per-entry layouts (descriptor / sizes, store / deflate, extra field, directories) incl. an aliasing body family; P1 P2 P3 N1 N2 and the application/zip parent are decided from zip.Reader's names."+HELD,
+ "C19":M("exploration","C19","archive/zip as writer AND reader: verdict predicted from the read-back entry list, 9 writer layouts per entry",
+   "Generated entry lists (OOXML bookkeeping, markers at positions 2-10, near misses incl. every marker in other letter cases, directory entries, JAR/APK/ODF/EPUB, unrelated) written with 9 per-entry layouts (descriptor / sizes, store / deflate, extra field, ZIP64-form header, directories, local headers whose own DOS time / date / CRC-32 fields spell PK\\x03\\x04) incl. an aliasing body family; P1 P2 P3 N1 N2 and the application/zip parent are decided from zip.Reader's names."+HELD+" One known finding (phantom header inside the second local header) is replayed and listed.",
    "Trusted: archive/zip; P3 only for a stored mimetype entry without extra field; P1 only for exactly one kind of marker among entries 2-6."),
  "C04":M("exploration","C04","history differential against construction/oracle expectations with a fresh-process-per-probe baseline; pooled-state observation through a peek hook; read-only (mprotect) inputs; tail / spare-capacity poison differential; concurrent part under the race detector",
    "39 fixed and generated probes with expectations decided by construction are detected as the first and only call of a fresh process and after histories of 1-6 predecessor detections from 29 kinds (every ordered pair exhaustively) with GOMAXPROCS=1 and GC off so pooled state really is reused (observed through the pool-peek hook); all seeds are detected from read-only pages three times and with 5 different tails / spare-capacity contents beyond the limit; the workload is repeated on 12 goroutines under -race, and detections run while another goroutine alternates the limit between two values with the same sequential answer."+HELD,
@@ -96,7 +96,7 @@ man={
    "kind_free_text":"Go harness: supervisor + one child process per batch (crash isolation), build-tagged hooks into the library, independent oracles/reference models, guard-page buffers, Go race detector, porcupine history checking"}],
  "checks":checks,
  "not_applicable":na,
- "notes":"Family: runtime monitoring and sanitizers. VERIF_SEED seeds every workload (default 1); VERIF_TIER overrides the tier. exit 0 held / 1 VIOLATION / 2 infrastructure error. Known findings: /verif/KNOWN_FINDINGS.txt (one open entry: C18, a tar whose first member is named pkg/gpkg-1 - printed as KNOWN-FINDING, exit 0; ten fixed entries for the nine repaired defects). VERIF_REPO=<dir> makes the checks build against another working tree (used by background sweeps). Inconclusive batches are printed as INCONCLUSIVE lines and do not change the exit code.",
+ "notes":"Family: runtime monitoring and sanitizers. VERIF_SEED seeds every workload (default 1); VERIF_TIER overrides the tier. exit 0 held / 1 VIOLATION / 2 infrastructure error. Known findings: /verif/KNOWN_FINDINGS.txt (two open entries: C18, a tar whose first member is named pkg/gpkg-1; C19, a marker-free zip whose second local header spells PK\\x03\\x04 in its own date / CRC fields behind a short first name and is reported as APK - each printed as KNOWN-FINDING, exit 0; ten fixed entries for the nine repaired defects). VERIF_REPO=<dir> makes the checks build against another working tree (used by background sweeps). Inconclusive batches are printed as INCONCLUSIVE lines and do not change the exit code.",
 }
 json.dump(man,open(root+'/MANIFEST.json','w'),indent=1)
 print("wrote MANIFEST.json with",len(checks),"checks;",len(na),"not_applicable")
